@@ -1,18 +1,34 @@
 /-
   Driver ops for C08:
-    c8w <salt> <script…>        → one line per file operation of the writers
-                                   (`create n` | `append n hex` | `pwrite n hex` |
-                                    `rename a b` | `remove n`), then `end`
+    c8w <salt> <script…>        → one line per ATTEMPTED file operation of the writers
+                                   (`create n wct` (open flags O_WRONLY|O_CREAT|O_TRUNC) |
+                                    `append n @off hex` | `pwrite n @off hex` |
+                                    `rename a b` | `remove n` | `fail create|remove|write n`),
+                                   then `end`. A script without fault ops is run through
+                                   `scriptOps` (the function the fault-free theorems are about)
+                                   AND through `xScriptOps`; a disagreement prints `models-disagree`.
+    c8i <n> <k>                 → the model's crash image `crashImageX [] ops n k` (ops of the last `c8w`
+                                   script) as `name=hex,…`
+    c8d <salt> <script…>        → several replication-id directories: the directory-level syscalls of
+                                   `dsetrun`/`dverify`/`ddel` (`mkdir id` | `rendir a b` | `remove id/name` |
+                                   `rmdir id`) and the writers' operations in the current
+                                   directory (names `id/name`), then `end`
+    c8V <cur> <ids> <root>      → `VerifyRunId(ids)` on a base directory `id:name=hex,…;id:…`
+    c8v <live> <zombies> <probes> <img> → `serveLive` with verification on the live index of <img>, a writer
+                                   on the segment <live>, close observer never run for <zombies>: `read <off> err <class>` | `read <off> <end> <hex>`
     c8r <verify> <probes> <img> → what a fresh Storer answers on the image
                                    `name=hex,name=hex,…` (`.` = empty directory):
-         range=l,r rdb=l,s valid=<bits>
+         range=l,r rdb=l,s valid=<bits> removed=<files initDataSet unlinks>
          read <off> err <class> | read <off> rdb <left> <size> | read <off> <end> <hex>
 -/
 import GunYu.Model.Store
 import GunYu.Model.StoreFs
+import GunYu.Model.StoreFsX
+import GunYu.Model.StoreFsLive
+import GunYu.Model.StoreRoot
 
 namespace GunYu.Drive.C08
-open GunYu GunYu.Store GunYu.StoreFs
+open GunYu GunYu.Store GunYu.StoreFs GunYu.StoreFsX
 
 def dash (s : String) : String := if s.isEmpty then "-" else s
 
@@ -49,12 +65,32 @@ def parseName (n : String) : FName :=
       | some p => (match parsePair p with | some (l, s) => .rdb l s | none => .other n)
       | none => .other n
 
-def fsOpStr : FsOp → String
-  | .create n => s!"create {nameStr n}"
-  | .append n bs => s!"append {nameStr n} {Hex.encode bs}"
-  | .pwriteHdr n h => s!"pwrite {nameStr n} {Hex.encode h}"
-  | .rename a b => s!"rename {nameStr a} {nameStr b}"
-  | .remove n => s!"remove {nameStr n}"
+/-- the open flags of `os.OpenFile(.., O_WRONLY|O_CREATE|O_TRUNC, ..)` (`openFile`, `NewRdbWriter`): what
+    `FsOp.create` stands for (the file is empty afterwards, whether it existed or not) -/
+def createFlags : String := "wct"
+
+/-- one attempted operation, rendered against the directory it is applied to (the
+    offset of an append is the length of the file at that instant) -/
+def attStr (fs : FS) (a : Att) : String :=
+  if a.ok then
+    match a.op with
+    | .create n => s!"create {nameStr n} {createFlags}"
+    | .append n bs => s!"append {nameStr n} @{((fs.get n).getD []).length} {Hex.encode bs}"
+    | .pwriteHdr n h => s!"pwrite {nameStr n} @0 {Hex.encode h}"
+    | .rename a b => s!"rename {nameStr a} {nameStr b}"
+    | .remove n => s!"remove {nameStr n}"
+  else
+    match a.op with
+    | .create n => s!"fail create {nameStr n} {createFlags}"
+    | .append n bs => s!"fail write {nameStr n} @{((fs.get n).getD []).length} {Hex.encode bs}"
+    -- the part of a header rewrite that was not written: the bytes after the first 16 - |rest|
+    | .pwriteHdr n bs => s!"fail write {nameStr n} @{headerSize - bs.length} {Hex.encode bs}"
+    | .rename a b => s!"fail rename {nameStr a} {nameStr b}"
+    | .remove n => s!"fail remove {nameStr n}"
+
+def attLines : FS → List Att → List String
+  | _, [] => []
+  | fs, a :: rest => attStr fs a :: attLines (if a.ok then fs.apply a.op else fs) rest
 
 def splitSemi : List String → List (List String)
   | [] => [[]]
@@ -66,27 +102,67 @@ def splitSemi : List String → List (List String)
     | [] => [[t]]
 
 /-- script ops (`;`-separated) → model ops; `dnew` fixes the sizes -/
-def parseScript (toks : List String) : (Nat × Nat) × List DOp :=
+def parseScript (toks : List String) : (Nat × Nat) × List XOp :=
   let groups := (splitSemi toks).filter (!·.isEmpty)
-  groups.foldl (fun (acc : (Nat × Nat) × List DOp) g =>
+  groups.foldl (fun (acc : (Nat × Nat) × List XOp) g =>
     match g with
     | ["dnew", a, b] => ((a.toNat!, b.toNat!), acc.2)
-    | ["dsetrun", id] => (acc.1, acc.2 ++ [.setRunId id])
-    | ["drdbw", a, b] => (acc.1, acc.2 ++ [.newRdbWriter a.toNat! b.toNat!])
-    | ["drdba", h] => (acc.1, acc.2 ++ [.rdbAppend ((Hex.decode h).getD [])])
-    | ["drdbc"] => (acc.1, acc.2 ++ [.rdbClose])
+    | ["dsetrun", id] => (acc.1, acc.2 ++ [.op (.setRunId id)])
+    | ["drdbw", a, b] => (acc.1, acc.2 ++ [.op (.newRdbWriter a.toNat! b.toNat!)])
+    | ["drdba", h] => (acc.1, acc.2 ++ [.op (.rdbAppend ((Hex.decode h).getD []))])
+    | ["drdbc"] => (acc.1, acc.2 ++ [.op .rdbClose])
     -- a chunk that was received but never written (writer stopped before the
     -- write / the write failed): for the files it is a close without the chunk
-    | ["drdbx", _] => (acc.1, acc.2 ++ [.rdbClose])
-    | ["drdbf", _] => (acc.1, acc.2 ++ [.rdbClose])
-    | ["daofw", a] => (acc.1, acc.2 ++ [.newAofWriter a.toNat!])
-    | ["daofa", h] => (acc.1, acc.2 ++ [.aofAppend ((Hex.decode h).getD [])])
-    | ["daofc"] => (acc.1, acc.2 ++ [.aofClose])
+    | ["drdbx", _] => (acc.1, acc.2 ++ [.op .rdbClose])
+    | ["drdbf", _] => (acc.1, acc.2 ++ [.op .rdbClose])
+    | ["daofw", a] => (acc.1, acc.2 ++ [.op (.newAofWriter a.toNat!)])
+    | ["daofa", h] => (acc.1, acc.2 ++ [.op (.aofAppend ((Hex.decode h).getD []))])
+    | ["daofc"] => (acc.1, acc.2 ++ [.op .aofClose])
     -- short write (only the first k bytes reach the file, below the rotation
     -- limit), then the writer ends
-    | ["daofx", k, h] => (acc.1, acc.2 ++ [.aofAppend (((Hex.decode h).getD []).take k.toNat!), .aofClose])
-    | ["dgc"] => (acc.1, acc.2 ++ [.gc])
+    | ["daofx", k, h] => (acc.1, acc.2 ++ [.aofAppendShort ((Hex.decode h).getD []) k.toNat!])
+    | ["dgc"] => (acc.1, acc.2 ++ [.op .gc])
+    -- faults
+    | ["daofcf", k] => (acc.1, acc.2 ++ [.aofCloseHdrFail k.toNat!])
+    | ["daofaf", k, h] => (acc.1, acc.2 ++ [.aofAppendHdrFail ((Hex.decode h).getD []) k.toNat!])
+    | ["daofao", h] => (acc.1, acc.2 ++ [.aofAppendOpenFail ((Hex.decode h).getD [])])
+    | ["daofcr"] => (acc.1, acc.2 ++ [.aofCloseRmFail])
+    | ["drdbcr"] => (acc.1, acc.2 ++ [.rdbCloseRmFail])
+    | ["dgcr"] => (acc.1, acc.2 ++ [.gcRmFail [] true])
+    | ["dgcp", ls] => (acc.1, acc.2 ++ [.gcRmFail ((ls.splitOn ",").filterMap String.toNat?) false])
     | _ => acc) ((0, 0), [])
+
+/-- the harness' source function `c08Src(salt, off)` (vf_c08_test.go) -/
+def c08Mix (x : UInt64) : UInt64 :=
+  let x := x ^^^ (x >>> 33)
+  let x := x * 0xff51afd7ed558ccd
+  let x := x ^^^ (x >>> 33)
+  let x := x * 0xc4ceb9fe1a85ec53
+  x ^^^ (x >>> 33)
+
+def c08Src (salt : Nat) (off : Nat) : UInt8 :=
+  (c08Mix (UInt64.ofNat salt * 0x9E3779B97F4A7C15 + UInt64.ofNat off)).toUInt8
+
+def b01 (b : Bool) : String := if b then "1" else "0"
+
+/-- are the hypotheses of the theorems met by this script? (`wfX`: the callers' protocol;
+    `SrcOkX`: the chunks are the source's bytes at the offsets they are appended at) -/
+def hypLine (salt : Nat) (l m : Nat) (xs : List XOp) : String :=
+  s!"hyp wf={b01 (wfXB (XDisk.init l m) xs)} src={b01 (srcOkXB (c08Src salt) (XDisk.init l m) xs)}"
+
+def plainOp : XOp → Option DOp
+  | .op o => some o
+  | _ => none
+
+/-- the lines of a writers' script -/
+def scriptLines (l m : Nat) (xs : List XOp) : List String :=
+  let xl := attLines [] (xrun (XDisk.init l m) xs)
+  match xs.mapM plainOp with
+  | some ops =>
+    -- fault-free: the function the theorems `crash_bytes_true` … are about
+    let pl := attLines [] (allOk (scriptOps (Disk.init l m) ops))
+    if pl == xl then pl else pl ++ ["models-disagree"]
+  | none => xl
 
 def parseImage (s : String) : FS :=
   if s == "." then [] else
@@ -105,7 +181,9 @@ def reopenLines (verify : Bool) (probes : List Nat) (fs : FS) : List String :=
   let (l, rr) := d.range
   let (rl, rs) := d.getRdb
   let valid := probes.map d.inRange
-  let head := s!"range={l},{rr} rdb={rl},{rs} valid={bits valid}"
+  -- the files `initDataSet` unlinks (`TruncateGap`'s leftovers), as a sorted set
+  let removed := dash (",".intercalate ((sortNames r.removed).map nameStr))
+  let head := s!"range={l},{rr} rdb={rl},{rs} valid={bits valid} removed={removed}"
   let reads := (probes.zip valid).filterMap (fun (o, v) =>
     if !v then none else
     match indexAof d.all o with
@@ -133,34 +211,205 @@ def reopenLines (verify : Bool) (probes : List Nat) (fs : FS) : List String :=
       | none => some s!"read {o} err notexist")
   head :: reads
 
+/-- the image as the harness prints it: entries sorted by name -/
+def imageStr (fs : FS) : String :=
+  if fs.isEmpty then "." else
+  ",".intercalate ((sortNames (fs.map (·.1))).map (fun n => s!"{nameStr n}={Hex.encode ((fs.get n).getD [])}"))
+
+/-- the operations of a script that took effect (fault-free scripts: `scriptOps`) -/
+def effOps (l m : Nat) (xs : List XOp) : List FsOp :=
+  match xs.mapM plainOp with
+  | some ops => scriptOps (Disk.init l m) ops
+  | none => xScriptOps (XDisk.init l m) xs
+
+/-- verifying readers on the LIVE index (`serveLive`, the function of the `live_*` theorems) of
+    the state the harness observes: directory `fs`, a writer on the segment starting at `live`,
+    `zombies` = segments whose close observer never ran -/
+def liveLines (live : Option Nat) (zombies : List Nat) (probes : List Nat) (fs : FS) : List String :=
+  let s := XDisk.ofImage fs live zombies
+  let unv := unverifiedOf s
+  probes.map (fun o =>
+    match serveLive s true o, indexAof s.d.all o with
+    | some (bs, e), some g =>
+      let firstBad := !unv.contains g.left && (match fs.get (aofName g.left) with
+        | some file => !segVerifyOk file
+        | none => false)
+      if firstBad then s!"read {o} err corrupt"
+      else match e with
+        | ServeEnd.eof => s!"read {o} eof {Hex.encode bs}"
+        | _ => s!"read {o} other {Hex.encode bs}"
+    | _, _ => s!"read {o} err notexist")
+
+/-! ### several replication-id directories (`c8d`, `c8V`) -/
+
+def attStrP (pfx : String) (fs : FS) (a : Att) : String :=
+  let nm := fun (n : FName) => pfx ++ nameStr n
+  if a.ok then
+    match a.op with
+    | .create n => s!"create {nm n} {createFlags}"
+    | .append n bs => s!"append {nm n} @{((fs.get n).getD []).length} {Hex.encode bs}"
+    | .pwriteHdr n h => s!"pwrite {nm n} @0 {Hex.encode h}"
+    | .rename a b => s!"rename {nm a} {nm b}"
+    | .remove n => s!"remove {nm n}"
+  else
+    match a.op with
+    | .create n => s!"fail create {nm n} {createFlags}"
+    | .append n bs => s!"fail write {nm n} @{((fs.get n).getD []).length} {Hex.encode bs}"
+    | .pwriteHdr n bs => s!"fail write {nm n} @{headerSize - bs.length} {Hex.encode bs}"
+    | .rename a b => s!"fail rename {nm a} {nm b}"
+    | .remove n => s!"fail remove {nm n}"
+
+def attLinesP (pfx : String) : FS → List Att → List String
+  | _, [] => []
+  | fs, a :: rest => attStrP pfx fs a :: attLinesP pfx (if a.ok then fs.apply a.op else fs) rest
+
+def sysStr : RSys → String
+  | .mkdir id => s!"mkdir {id}"
+  | .renameDir a b => s!"rendir {a} {b}"
+  | .unlink id n => s!"remove {id}/{nameStr n}"
+  | .rmdir id => s!"rmdir {id}"
+
+structure RS where
+  l : Nat
+  m : Nat
+  root : Root
+  cur : String
+  x : XDisk
+  salts : List (Char × Nat) := []
+  wf : Bool := true       -- every writer step so far met `okX`
+  src : Bool := true      -- every chunk so far was its id's source bytes at the offset the ghost has reached
+
+def RS.srcFn (s : RS) : Nat → UInt8 :=
+  match s.cur.toList.head? with
+  | some c => c08Src ((s.salts.lookup c).getD 0)
+  | none => c08Src 0
+
+def RS.sync (s : RS) : Root := if s.cur == "" then s.root else s.root.set s.cur s.x.fs
+
+/-- the index after the current id became `cur'` (a re-scan unless the id is unchanged) -/
+def RS.enter (s : RS) (root1 : Root) (cur' : String) : RS :=
+  if cur' == s.cur then { s with root := root1 }
+  else { s with root := root1, cur := cur', x := XDisk.reopened ((root1.get cur').getD []) s.l s.m cur' }
+
+def xopOf (g : List String) : Option XOp :=
+  match g with
+  | ["daofw", a] => some (.op (.newAofWriter a.toNat!))
+  | ["daofa", h] => some (.op (.aofAppend ((Hex.decode h).getD [])))
+  | ["daofc"] => some (.op .aofClose)
+  | ["dgc"] => some (.op .gc)
+  | ["daofx", k, h] => some (.aofAppendShort ((Hex.decode h).getD []) k.toNat!)
+  | ["daofcf", k] => some (.aofCloseHdrFail k.toNat!)
+  | _ => none
+
+def rsStep (s : RS) (g : List String) : RS × List String :=
+  match g with
+  | ["dnew", a, b] =>
+    -- a new process: no current id, no index
+    ({ s with l := a.toNat!, m := b.toNat!, root := s.sync, cur := "", x := XDisk.init a.toNat! b.toNat! }, [])
+  | ["dsetrun", id] =>
+    let root0 := s.sync
+    let sys := setRunIdSys root0 s.cur id
+    (s.enter (root0.applyAllSys sys) (setRunIdCur s.cur id), sys.map sysStr)
+  | ["dverify", ids] =>
+    let root0 := s.sync
+    let (sys, root1, cur', chosen) := verifyRunId root0 s.cur (ids.splitOn ",")
+    let _ := chosen
+    (s.enter root1 cur', sys.map sysStr)
+  | ["ddel", id] =>
+    let root0 := s.sync
+    if realId id && root0.has id then
+      let order := sortNames (((root0.get id).getD []).map (·.1))
+      let sys := delRunIdSys root0 id order
+      -- `DelRunId`: the index is reset, there is no current id any more
+      ({ s with root := root0.applyAllSys sys, cur := "", x := XDisk.init s.l s.m }, sys.map sysStr)
+    else (s, [])
+  | _ =>
+    match xopOf g with
+    | some op =>
+      let (x', atts) := xstep s.x op
+      ({ s with x := x', wf := s.wf && wfXB s.x [op], src := s.src && srcOkXB s.srcFn s.x [op] },
+       attLinesP (s.cur ++ "/") s.x.fs atts)
+    | none => (s, [])
+
+/-- `os.RemoveAll` unlinks in `readdir` order: the run of removals in a directory right before
+    its `rmdir` is compared as a sorted block (the harness does the same with the real ones) -/
+def canonRm (lines : List String) : List String :=
+  lines.foldl (fun acc l =>
+    if l.startsWith "rmdir " then
+      let pfx := "remove " ++ (l.drop 6).toString ++ "/"
+      let run := acc.reverse.takeWhile (fun x => x.startsWith pfx)
+      acc.take (acc.length - run.length) ++ run.mergeSort (fun a b => decide (a ≤ b)) ++ [l]
+    else acc ++ [l]) []
+
+def parseSalts (s : String) : List (Char × Nat) :=
+  (s.splitOn ",").filterMap (fun kv =>
+    match kv.splitOn "=" with
+    | [k, v] => (k.toList.head?).bind (fun c => v.toNat?.map (fun n => (c, n)))
+    | _ => none)
+
+def rsRun (salts : String) (toks : List String) : List String × String :=
+  let groups := (splitSemi toks).filter (!·.isEmpty)
+  let init : RS := { l := 0, m := 0, root := [], cur := "", x := XDisk.init 0 0, salts := parseSalts salts }
+  let r := groups.foldl (fun (acc : RS × List String) g =>
+    let (s', out) := rsStep acc.1 g
+    (s', acc.2 ++ out)) (init, [])
+  (r.2, s!"hyp wf={b01 r.1.wf} src={b01 r.1.src}")
+
+/-- `id:name=hex,name=hex;id:…` (`id:.` = empty directory, `.` = no directory) -/
+def parseRoot (s : String) : Root :=
+  if s == "." then [] else
+  (s.splitOn ";").filterMap (fun d =>
+    match d.splitOn ":" with
+    | [id, img] => some (id, parseImage img)
+    | _ => none)
+
 def parseNats (s : String) : List Nat :=
   if s == "-" || s.isEmpty then [] else (s.splitOn ",").filterMap String.toNat?
 
 def handle0 : List String → Option (List String)
-  | "c8w" :: _salt :: script =>
-    let ((l, m), ops) := parseScript script
-    some ((scriptOps (Disk.init l m) ops).map fsOpStr ++ ["end"])
+  | "c8w" :: salt :: script =>
+    let ((l, m), xs) := parseScript script
+    some (scriptLines l m xs ++ [hypLine salt.toNat! l m xs, "end"])
+  | "c8d" :: salts :: script =>
+    let (lines, hyp) := rsRun salts script
+    some (canonRm lines ++ [hyp, "end"])
+  | ["c8V", cur, ids, rootimg] =>
+    -- `VerifyRunId(ids)` of a new process (`cur` = "-": none) on the base directory
+    let r := parseRoot rootimg
+    let (_, r', cur', chosen) := verifyRunId r (if cur == "-" then "" else cur) (ids.splitOn ",")
+    let latest := match chosen with
+      | some id => latestOf ((r'.get id).getD [])
+      | none => 0
+    some [s!"chosen={dash (chosen.getD "")} cur={dash cur'} latest={latest}"]
+  | ["c8v", live, zs, ps, img] => some (liveLines live.toNat? (parseNats zs) (parseNats ps) (parseImage img))
   | ["c8r", v, ps, img] => some (reopenLines (v == "1") (parseNats ps) (parseImage img))
   | _ => none
 
 /-- stateful loop: every output line is prefixed with `#<op index> ` so that the
-    runner can name the op of the first difference -/
-partial def loop (i : Nat) (hin hout : IO.FS.Stream) : IO Unit := do
+    runner can name the op of the first difference. State: the operations (that took
+    effect) of the last `c8w` script — `c8i <n> <k>` asks for the MODEL's crash image
+    `crashImageX [] ops n k` of that script. -/
+partial def loop (i : Nat) (cur : List FsOp) (hin hout : IO.FS.Stream) : IO Unit := do
   let line ← hin.getLine
   if line.isEmpty then return ()
   let toks := (line.trimAscii.toString.splitOn " ").filter (· ≠ "")
-  if toks.isEmpty then loop i hin hout else
-  let outs := match handle0 toks with
-    | some o => o
-    | none => ["bad-op"]
+  if toks.isEmpty then loop i cur hin hout else
+  let (outs, cur') := match toks with
+    | "c8w" :: salt :: script =>
+      let ((l, m), xs) := parseScript script
+      (scriptLines l m xs ++ [hypLine salt.toNat! l m xs, "end"], effOps l m xs)
+    | ["c8i", n, k] => ([imageStr (crashImageX [] cur n.toNat! k.toNat!)], cur)
+    | _ => (match handle0 toks with
+      | some o => (o, cur)
+      | none => (["bad-op"], cur))
   for o in outs do
     hout.putStrLn s!"#{i} {o}"
-  loop (i + 1) hin hout
+  loop (i + 1) cur' hin hout
 
 def main : IO Unit := do
   let hin ← IO.getStdin
   let hout ← IO.getStdout
-  loop 0 hin hout
+  loop 0 [] hin hout
   hout.flush
 
 end GunYu.Drive.C08
